@@ -491,7 +491,7 @@ void op_bt_init(World& W, int wi)
   if (li < 0) return;
   LoggerInfo& L = W.loggers[li];
   WInfo& x = W.workers[wi];
-  uint32_t cap = 1 + c.pick(9);
+  uint32_t cap = (c.pick(3) == 2) ? 1 + c.pick(9) : 1 + c.pick(3); // small rings wrap often
   int lvl;
   switch (c.pick(5))
   {
